@@ -79,6 +79,12 @@ def run(ctx):
                     ok = ok or leaves_loop(arm['body'])
         ctx.add('L2.closed-channel-leaves-loop', role, loc(a['body']), ok,
                 'when the %s channel is closed (all handles dropped) the driver loop does not end' % role)
+    # the scrub arm ignores a closed channel; that is only harmless while select! picks its starting branch at random
+    rng = [n for n, c in walk(L.root) if n['k'] == 'Call' and (callee_of(n) or '') == 'tokio::macros::support::thread_rng_n']
+    sb = C.arms['scrub']['bindings'][0][0]
+    scrub_none_leaves = any(n['k'] == 'If' and n['cond']['k'] == 'LetExpr' and hirq.local_of(n['cond']['init']) == sb and leaves_loop(n.get('els')) for n, c in walk(C.arms['scrub']['body']))
+    ctx.add('L2.closed-scrub-channel-cannot-starve-exit', 'select fairness', loc(main_loop), bool(rng) or scrub_none_leaves,
+            'the select! is biased and its first-polled arm (ID scrub) is permanently ready with None once all handles are dropped: the arms that end the loop are never reached and the driver spins forever')
     resp = C.arms['response']
     rb = resp['bindings'][0][0]
     for m in [n for n, c in walk(resp['body']) if n['k'] == 'Match' and hirq.local_of(n['scrut']) == rb]:
